@@ -8,37 +8,49 @@
    constant Protocol; Weak = {} means rename. *)
 EXTENDS Naturals, Sequences, FiniteSets, TLC
 CONSTANTS Lens,       \* value lengths to choose old / new from; 0 stands for "absent" as an old value when OldAbsent
-          Protocol    \* "rename" | "inplace"
-VARIABLES old, new,   \* scenario: [absent: BOOLEAN, len: Nat] / length of the new value
+          Protocol,   \* "rename" | "inplace"
+          Weak        \* named guards that are MISSING: "tmp_truncated" (a left-over temporary file is emptied before reuse)
+VARIABLES old, new,   \* scenario: [absent: BOOLEAN, len: Nat] / length of the value being written
           pc,         \* index of the next file-system operation
-          file,       \* the key's file: [exists, nnew, nold]  = bytes of the new value at the front, old bytes after them
-          tmp,        \* the temporary file: bytes of the new value written so far, -1 = does not exist
-          crashed
-vars == <<old, new, pc, file, tmp, crashed>>
+          file,       \* the key's file: [exists, nnew, nold]  = bytes of the value being written at the front, foreign bytes after them
+          tmp,        \* the temporary file: bytes of the value being written so far, -1 = does not exist
+          stale,      \* foreign bytes in the temporary file behind them (left by an earlier, killed write)
+          crashed,
+          phase       \* "first": the write that may be killed; "next": a complete write of another value after the restart; "done"
+vars == <<old, new, pc, file, tmp, stale, crashed, phase>>
+Guard(g) == g \notin Weak
 
 Ops == IF Protocol = "rename" THEN <<"create_tmp", "write_tmp", "sync_tmp", "close_tmp", "rename">>
        ELSE <<"open_key", "write_key", "close_key">>
 
 Init == /\ old \in [absent : BOOLEAN, len : Lens] /\ new \in Lens
-        /\ pc = 1 /\ crashed = FALSE /\ tmp = 0 - 0 /\ file = [exists |-> ~old.absent, nnew |-> 0, nold |-> IF old.absent THEN 0 ELSE old.len]
+        /\ pc = 1 /\ crashed = FALSE /\ tmp = 0 - 1 /\ stale = 0 /\ phase = "first" /\ file = [exists |-> ~old.absent, nnew |-> 0, nold |-> IF old.absent THEN 0 ELSE old.len]
 
 Max(a, b) == IF a > b THEN a ELSE b
 Apply(op) ==
-  CASE op = "create_tmp" -> tmp' = 0 /\ UNCHANGED file
-    [] op = "write_tmp"  -> tmp' = new /\ UNCHANGED file
-    [] op = "rename"     -> file' = [exists |-> TRUE, nnew |-> new, nold |-> 0] /\ tmp' = 0
-    [] op = "open_key"   -> file' = [file EXCEPT !.exists = TRUE] /\ UNCHANGED tmp          \* O_CREATE, no O_TRUNC
-    [] op = "write_key"  -> file' = [exists |-> TRUE, nnew |-> new, nold |-> IF file.nold > new THEN file.nold - new ELSE 0] /\ UNCHANGED tmp
-    [] OTHER             -> UNCHANGED <<file, tmp>>       \* sync / close: nothing a process kill could undo
-Step  == /\ ~crashed /\ pc <= Len(Ops) /\ Apply(Ops[pc]) /\ pc' = pc + 1 /\ UNCHANGED <<old, new, crashed>>
-Crash == /\ ~crashed /\ crashed' = TRUE /\ UNCHANGED <<old, new, pc, file, tmp>>
-Next == Step \/ Crash
+  CASE op = "create_tmp" -> /\ tmp' = 0 /\ UNCHANGED file      \* O_CREATE|O_TRUNC: what an earlier write left there is gone
+                            /\ stale' = IF tmp > 0 /\ ~Guard("tmp_truncated") THEN tmp + stale ELSE 0
+    [] op = "write_tmp"  -> tmp' = new /\ stale' = (IF stale > new THEN stale - new ELSE 0) /\ UNCHANGED file
+    [] op = "rename"     -> file' = [exists |-> TRUE, nnew |-> tmp, nold |-> stale] /\ tmp' = 0 - 1 /\ stale' = 0
+    [] op = "open_key"   -> file' = [file EXCEPT !.exists = TRUE] /\ UNCHANGED <<tmp, stale>>          \* O_CREATE, no O_TRUNC
+    [] op = "write_key"  -> file' = [exists |-> TRUE, nnew |-> new, nold |-> IF file.nnew + file.nold > new THEN file.nnew + file.nold - new ELSE 0] /\ UNCHANGED <<tmp, stale>>
+    [] OTHER             -> UNCHANGED <<file, tmp, stale>>       \* sync / close: nothing a process kill could undo
+Step  == /\ phase \in {"first", "next"} /\ ~(phase = "first" /\ crashed) /\ pc <= Len(Ops) /\ Apply(Ops[pc]) /\ pc' = pc + 1
+         /\ UNCHANGED <<old, new, crashed, phase>>
+Crash == /\ phase = "first" /\ ~crashed /\ crashed' = TRUE /\ UNCHANGED <<old, new, pc, file, tmp, stale, phase>>
+\* after the restart another value is written to the same key, this time to the end
+Restart(n) == /\ phase = "first" /\ (crashed \/ pc > Len(Ops)) /\ phase' = "next" /\ new' = n /\ pc' = 1
+              /\ UNCHANGED <<old, file, tmp, stale, crashed>>
+Finish == /\ phase = "next" /\ pc > Len(Ops) /\ phase' = "done" /\ UNCHANGED <<old, new, pc, file, tmp, stale, crashed>>
+Next == Step \/ Crash \/ (\E n \in Lens : Restart(n)) \/ Finish
 Spec == Init /\ [][Next]_vars
 
 \* what a fresh store reads for the key
 ReadsOld == IF old.absent THEN ~file.exists ELSE file.exists /\ file.nnew = 0 /\ file.nold = old.len
 ReadsNew == file.exists /\ file.nnew = new /\ file.nold = 0
 \* ---- C19
-AtomicRule == crashed => (ReadsOld \/ ReadsNew)
-Completed == (~crashed /\ pc > Len(Ops)) => ReadsNew
+AtomicRule == (phase = "first" /\ crashed) => (ReadsOld \/ ReadsNew)
+Completed == (phase = "first" /\ ~crashed /\ pc > Len(Ops)) => ReadsNew
+\* ---- and the store stays a map afterwards (C18 after a crash): the next complete write is read back exactly
+FollowUp == phase = "done" => ReadsNew
 =======================================================================
